@@ -748,6 +748,88 @@ Section Callback.
       destruct A' as [X|X]; [exact X|rewrite M2 in X; discriminate].
     - exact (so_db _ _ _ _ _ _ s' SO').
   Qed.
+
+  (* the four facts about the store after a complete run *)
+  Definition final_facts (d : kv) : Prop :=
+    (forall p h cb, RN p h cb -> has h d = true) /\
+    (forall c, RC c -> has (code_key c) d = true) /\
+    (forall k v, get k d = Some v ->
+       get k db0 = Some v \/ (RNh H T root cb0 k /\ T k = Some v) \/
+       (exists h, k = code_key h /\ RC h /\ CD h = Some v)) /\
+    (forall k v, get k db0 = Some v -> get k d = Some v).
+
+  Lemma final_facts_run ops s' :
+    closedA ->
+    let s0 := unsum (new_sync H false db0 root cb0) in
+    run_wf4 s0 ops -> pending (run H s0 ops) = O -> commit (run H s0 ops) = Some s' ->
+    final_facts (sc_db s').
+  Proof.
+    intros C0 s0 W Hp Ec.
+    destruct (sync_complete_callback ops s' C0 W Hp Ec) as (A & B & C).
+    split; [exact A|split; [exact B|split; [exact C|]]].
+    destruct (InvA_run ops s0 W (InvA_new_sync C0)) as (_ & _ & _ & SO).
+    exact (so_db0 _ _ _ _ _ _ s' (sound_commit H T CD root cb0 db0 agree0 _ _ SO Ec)).
+  Qed.
+
+  Lemma final_facts_sub d1 d2 : final_facts d1 -> final_facts d2 ->
+    forall k v, get k d1 = Some v -> get k d2 = Some v.
+  Proof.
+    intros (A1 & B1 & C1 & Z1) (A2 & B2 & C2 & Z2) k v E.
+    destruct (C1 k v E) as [X|[(Rk & Tk)|(h & -> & Rh & Ch)]].
+    - apply Z2. exact X.
+    - destruct Rk as (p & cb & Rk). pose proof (A2 _ _ _ Rk) as Hh. apply has_true in Hh. destruct Hh as [v2 E2].
+      rewrite E2. f_equal.
+      destruct (C2 k v2 E2) as [X|[(_ & Tk2)|(h & -> & Rh & _)]].
+      + apply (proj1 (agree0 _ _ X)); [exists p, cb; exact Rk|exact Tk].
+      + congruence.
+      + exfalso. pose proof (Hlen _ _ _ Rk) as L. apply RC_len in Rh. unfold code_key in L. simpl in L. lia.
+    - pose proof (B2 _ Rh) as Hh. apply has_true in Hh. destruct Hh as [v2 E2].
+      rewrite E2. f_equal.
+      destruct (C2 _ v2 E2) as [X|[((p & cb & Rk) & _)|(h' & Eh & Rh' & Ch')]].
+      + eapply (proj2 (agree0 _ _ X)); eauto.
+      + exfalso. pose proof (Hlen _ _ _ Rk) as L. apply RC_len in Rh. unfold code_key in L. simpl in L. lia.
+      + unfold code_key in Eh. inversion Eh; subst h'. congruence.
+  Qed.
+
+  (* ORDER IRRELEVANCE: any two histories that reach Pending() = 0 leave the same store *)
+  Theorem sync_order_irrelevant ops1 ops2 s1' s2' :
+    closedA ->
+    let s0 := unsum (new_sync H false db0 root cb0) in
+    run_wf4 s0 ops1 -> pending (run H s0 ops1) = O -> commit (run H s0 ops1) = Some s1' ->
+    run_wf4 s0 ops2 -> pending (run H s0 ops2) = O -> commit (run H s0 ops2) = Some s2' ->
+    forall k, get k (sc_db s1') = get k (sc_db s2').
+  Proof.
+    intros C0 s0 W1 P1 E1 W2 P2 E2 k.
+    pose proof (final_facts_run ops1 s1' C0 W1 P1 E1) as F1.
+    pose proof (final_facts_run ops2 s2' C0 W2 P2 E2) as F2.
+    destruct (get k (sc_db s1')) as [v1|] eqn:G1.
+    - symmetry. exact (final_facts_sub _ _ F1 F2 k v1 G1).
+    - destruct (get k (sc_db s2')) as [v2|] eqn:G2; [|reflexivity].
+      rewrite (final_facts_sub _ _ F2 F1 k v2 G2) in G1. discriminate.
+  Qed.
+
+  Lemma apply_ops_total : forall ops psch d,
+    (forall o p b h, In (OpWrite o p b h) ops -> b <> []) -> exists d', apply_ops psch d ops = Some d'.
+  Proof.
+    induction ops as [|o ops IH]; intros psch d Hn; simpl; [eauto|].
+    destruct o as [ow pa|ow pa blob hash]; simpl.
+    - apply IH. intros; eapply Hn; right; eauto.
+    - destruct blob as [|b0 bl]; [exfalso; eapply (Hn ow pa [] hash); [left; reflexivity|reflexivity]|].
+      apply IH. intros; eapply Hn; right; eauto.
+  Qed.
+
+  (* Commit never fails on a reachable state (every buffered write has a non-empty blob) *)
+  Theorem commit_succeeds ops :
+    closedA ->
+    let s0 := unsum (new_sync H false db0 root cb0) in
+    run_wf4 s0 ops -> exists s', commit (run H s0 ops) = Some s'.
+  Proof.
+    intros C0 s0 W. destruct (InvA_run ops s0 W (InvA_new_sync C0)) as (I & _).
+    unfold commit.
+    destruct (apply_ops_total (rev (mb_nodes (run H s0 ops))) (sc_path (run H s0 ops)) (sc_db (run H s0 ops))) as [d Ed].
+    - intros o p b h Hin. apply in_rev in Hin. exact (iv_ne _ _ _ _ _ _ I o p b h Hin).
+    - rewrite Ed. eauto.
+  Qed.
 End Callback.
 
 (* ---------- a concrete instance of the hypotheses of sync_complete_callback ---------- *)
